@@ -94,7 +94,10 @@ def run(module: str, cfg: str, workers: int = 1, env: dict | None = None, timeou
         coverage: bool = False, dfs: bool = False, extra: tuple = ()) -> TlcResult:
     meta = tempfile.mkdtemp(prefix="tlc-", dir=scratch_root())
     # one collector thread per worker: many single-worker JVMs run side by side during trace validation
-    java = ["java", "-XX:+UseParallelGC", f"-XX:ParallelGCThreads={max(1, min(workers, 8))}", "-Xss16m",
+    # explicit heap bounds: up to 16 single-worker JVMs validate trace batches side by side, and the JVM's default
+    # maximum (a quarter of the RAM each) let the kernel kill some of them in the thorough tier
+    heap = os.environ.get("VERIF_TLC_HEAP") or ("3g" if workers == 1 else "12g")
+    java = ["java", f"-Xmx{heap}", "-XX:+UseParallelGC", f"-XX:ParallelGCThreads={max(1, min(workers, 8))}", "-Xss16m",
             "-XX:TieredStopAtLevel=1", "-Xshare:auto"]
     if dfs:
         java.append("-Dtlc2.tool.queue.IStateQueue=StateDeque")
